@@ -18,7 +18,7 @@ from analysis import cfg, atoms as A, preach, writes
 from analysis.ir import callee_path, op_const, op_place, AnchorMissing
 from analysis.prov import prov_of, prov_assuming, show, strip, leaves, subterms
 from analysis.match import is_param, is_call, const_val, const_name, sh, mentions, call_args, fail_conditions
-from rules.common import as_min
+from rules.common import as_min, same_as_specialised
 
 SM = "math::swap_math::"
 TM = "math::token_math::"
@@ -247,6 +247,13 @@ def R2_rounding_primitives(run):
         run.touch(fn)
         ev = preach.call_events(facts, fn, {}, lambda p: p == callee, depth=0)
         got = {v[idx] for (_, v) in ev}
+        if not got and facts.fn(callee) is not None:
+            # the wrapper spells the primitive out for its own flag instead of calling it
+            cfn = facts.fn(callee)
+            same, why = same_as_specialised(fn, cfn, {cfn.param_names()[idx]: val})
+            run.check("R2", "wrapper@" + w, same, "%s neither calls %s nor computes what it does for round_up = %s: %s" % (w, callee, val, why),
+                      loc=fn.loc(), detail="own body equals %s specialised to round_up = %s" % (callee.rsplit("::", 1)[-1], val))
+            continue
         run.check("R2", "wrapper@" + w, got == {val}, "%s passes round_up = %s to %s, expected %s" % (w, sorted(map(str, got)), callee, val),
                   loc=fn.loc(), detail="round_up = %s" % val)
         # the other arguments are forwarded in order
